@@ -31,6 +31,8 @@ run_impl = cc.run_case
 def oracle(c, out):
     if "err" in out:
         return [("impl-error", "%s: %s" % (out["err"], out.get("msg")))]
+    if c.get("ti") and not cc.is_metric_space([[cc.F(v) for v in row] for row in out["D"]]):
+        return []   # the shortcut is only claimed for metrics obeying the triangle inequality; correspondence still runs
     f = cc.inv_failures(out)
     if out.get("attrs_ok") is False:
         f.append(("estimator-attrs", "estimator attributes differ from result_"))
